@@ -564,8 +564,9 @@ func streamMain(args []string) {
 			}
 		}
 	}
-	// cancellation => context kind
-	for i := 0; i < 3; i++ {
+	// cancellation (context cancelled / Cancel() from another goroutine while Execute runs) => context kind, and still exactly
+	// one end message — the failure one — once everything has settled
+	for i := 0; i < 4; i++ {
 		ctx, cancel := context.WithCancel(context.Background())
 		rec := &recLoggers{}
 		p, err := subprocess.New(ctx, rec, "START", "SUCCESS", "FAILURE", exe, "child", "o:"+hex.EncodeToString([]byte("x\n"))+":0;sleep:3000")
@@ -573,16 +574,47 @@ func streamMain(args []string) {
 			cancel()
 			continue
 		}
-		go func() { time.Sleep(150 * time.Millisecond); cancel() }()
+		how := "context cancelled"
+		if i%2 == 1 {
+			how = "Cancel()"
+		}
+		go func() {
+			time.Sleep(150 * time.Millisecond)
+			if i%2 == 1 {
+				p.Cancel()
+			} else {
+				cancel()
+			}
+		}()
 		t0 := time.Now()
 		runErr := p.Execute()
+		took := time.Since(t0)
+		time.Sleep(200 * time.Millisecond) // whatever reacts to the end of the context has had its turn
+		cancel()
+		caseTxt := "Execute(child printing a line then sleeping 3 s), " + how + " after 150 ms"
 		rep.Eval(fmt.Sprint("cancel ", i), true)
 		rep.Hist("B:cancelled")
-		if runErr == nil || time.Since(t0) > 2500*time.Millisecond {
-			rep.Fail(hx.Failure{Kind: "impl-violates-property", Key: "cancel-not-reported", Case: "cancel during sleep", Observed: fmt.Sprint(runErr, time.Since(t0))})
+		if runErr == nil || took > 2500*time.Millisecond {
+			rep.Fail(hx.Failure{Kind: "impl-violates-property", Key: "cancel-not-reported", Case: caseTxt, Observed: fmt.Sprint(runErr, took)})
 		} else if !commonerrors.Any(runErr, commonerrors.ErrCancelled, commonerrors.ErrTimeout) {
-			rep.Fail(hx.Failure{Kind: "impl-violates-property", Key: "cancel-error-not-context-kind", Case: "Execute(sleep) with the context cancelled after 150ms",
+			rep.Fail(hx.Failure{Kind: "impl-violates-property", Key: "cancel-error-not-context-kind", Case: caseTxt,
 				Expected: "an error of kind cancelled/timeout", Observed: runErr.Error()})
+		}
+		rec.mu.Lock()
+		var ends []string
+		starts := 0
+		for _, m := range rec.msgs {
+			switch {
+			case m.text == "SUCCESS" || strings.HasPrefix(m.text, "FAILURE"):
+				ends = append(ends, m.text)
+			case m.text == "START":
+				starts++
+			}
+		}
+		rec.mu.Unlock()
+		if starts != 1 || len(ends) != 1 || !strings.HasPrefix(ends[0], "FAILURE") {
+			rep.Fail(hx.Failure{Kind: "impl-violates-property", Key: "end-message:interrupted-execute", Case: caseTxt,
+				Expected: "one start message and exactly one end message: the failure one", Observed: fmt.Sprintf("%d start message(s), end messages %q", starts, ends)})
 		}
 	}
 	rep.Write(o.Report, drv)
